@@ -6,7 +6,7 @@ From KV Require Import Base Model ListAux PublishProofs Durable.
 From Coq Require Import ZifyBool ZifyNat.
 
 Lemma fname_eqb_eq a b : fname_eqb a b = true <-> a = b.
-Proof. destruct a, b; cbn; split; intros E; try discriminate; try (f_equal; lia); injection E; lia. Qed.
+Proof. destruct a, b; cbn; split; intros E; try discriminate; try reflexivity; try (f_equal; lia); injection E; lia. Qed.
 
 Lemma fname_eqb_refl a : fname_eqb a a = true.
 Proof. now apply fname_eqb_eq. Qed.
